@@ -3,6 +3,7 @@ from core import Case
 from . import proggen as G
 
 ID = "C13"
+SPEC_IS_ORACLE = lambda c: c.cmd == "CMPX"
 THEOREMS = [
     "Portus.C13.builtin_abi", "Portus.C13.builtin_only", "Portus.C13.abiTable_positions",
     "Portus.C13.report_slots", "Portus.C13.report_slots_bijective", "Portus.C13.declareAll_ok_iff",
@@ -32,6 +33,10 @@ TECHNIQUE = "Lean 4 theorems (closed ABI table by decide; slot assignment and it
 
 def gen(ctx):
     rng = ctx.rng
+    # the other public routes: the scope a compilation leaves behind, compiled against again (same program, another program)
+    for _i in range(3000 if ctx.thorough else 300):
+        _p = G.gen_program(rng)
+        yield Case("CMPX", G.hx(G.render(_p, G.Layout(rng, spelling=rng.choice(["sym", "word"])))), tags=("other-routes",))
     for _src in G.corner_programs():
         yield Case("CMP", "%s - -" % G.hx(_src), tags=("corner-grid",))
     n = 30000 if ctx.thorough else 1500
@@ -63,4 +68,6 @@ def nontrivial(c, r):
 
 
 def oracle(c, impl_res):
+    if c.cmd != "CMP":
+        return None  # other routes: decided by the correspondence with the model's compileProg on the same scopes
     return ("ORC", "C13 %s @@ %s" % (c.args, impl_res))
